@@ -35,7 +35,7 @@ def op(draw, kinds=MUTATORS, default=0):
                                   min_size=1, max_size=5))
         o["descend"] = draw(st.lists(st.sampled_from(["descend", "descend", "skip", "reserve"]), min_size=1, max_size=3))
         o["src"] = draw(gen.trees([6, 6, 6], default, max_elems=3))   # cut to the needed depth/shape when used
-    if k == "assign":
+    if k in ("assign", "fiber_arith"):
         o["src"] = draw(gen.trees([6, 6, 6], default, max_elems=3))
     if k == "updateCoords":
         o["perm"] = draw(st.permutations(list(range(8))))
@@ -330,6 +330,25 @@ class Machine:
                        "src_point": (prefix + (src_f.coords[spos],)) if src_f is f else None})
 
     def op_fiber_arith(self, o):
+        if o["mode"] // 4 % 2 and self.d >= 2 and (self.owned or self.d == 2) and "src" in o:
+            # in-place arithmetic of a fiber that has fibers below it, with a same-depth tree on the right
+            # (f += g is a nested populate, f *= g keeps the intersection and clears the rest)
+            f, lvl = self.target(o["path"], max_level=self.d - 2)
+            d = self.d - lvl
+            if not self.owned and lvl > 0:
+                return ("skipped", {})
+            tree = cut_tree(o["src"], self.shape[lvl:], d)
+            spec = {"rank_ids": self.spec["rank_ids"][lvl:], "shape": self.shape[lvl:], "default": self.default,
+                    "tree": tree}
+            g = build.build_tensor(spec, "ref").getRoot() if (o["mode"] // 8 % 2 or d > 2) else build.build_fiber(spec)
+            gsnap = observe.snap(g)
+            if o["mode"] % 2:
+                f += g
+            else:
+                f *= g
+            if observe.snap(g) != gsnap:
+                raise Violation("operand-modified", f"in-place arithmetic on an interior fiber changed its right operand")
+            return ("ok", {"interior": True, "level": lvl, "op": "+=" if o["mode"] % 2 else "*="})
         f, lvl = self.target(o["path"] + [0, 0, 0])
         if lvl < self.d - 1:
             return ("skipped", {})
